@@ -281,6 +281,8 @@ Proof. exact dehb_parent_slot_example. Qed.
 Print Assumptions c05_dehb_parent_slot_example.
 
 (* ---- get_top_list in order (both modes, NaN = failed entries; no hypothesis on the trial ids) ----
+   [Val q] is any reported value, q an arbitrary rational: reported +-inf are VALID extreme values (embedded
+   as +-2^1100 by the harness), only NaN is a failed entry — see c05_top_list_inf_example below.
    Enough valid entries: the top list is the first new_len entries of [srt], the valid entries sorted by
    metric (best first for the mode; entries with the same metric keep their rung order: [srt] restricted
    to any one metric value is the rung restricted to it), and contains no failed entry.
@@ -307,6 +309,16 @@ Example c05_top_list_order_example :
   fst (get_top_list Min rung 2) = [Some 1%Z; Some 3%Z] /\
   fst (get_top_list Max rung 4) = [Some 1%Z; Some 3%Z; Some 4%Z; Some 2%Z] /\
   valid_entries rung = [(Some 1%Z, 1); (Some 3%Z, 2); (Some 4%Z, 2)] /\ invalid_ids rung = [Some 2%Z; Some 5%Z].
+Proof. vm_compute. repeat split. Qed.
+
+Example c05_top_list_inf_example :
+  (* a trial that reported +inf is the best of its rung in mode max and the worst in mode min; it is never
+     treated like the failed (NaN) entry *)
+  let inf := inject_Z (2 ^ 1100) in
+  let rung := [(Some 1%Z, Val 1); (Some 2%Z, Val inf); (Some 3%Z, NaN); (Some 4%Z, Val (- inf))] in
+  fst (get_top_list Max rung 1) = [Some 2%Z] /\ fst (get_top_list Min rung 1) = [Some 4%Z] /\
+  fst (get_top_list Min rung 3) = [Some 4%Z; Some 1%Z; Some 2%Z] /\
+  fst (get_top_list Max rung 4) = [Some 1%Z; Some 2%Z; Some 4%Z; Some 3%Z].
 Proof. vm_compute. repeat split. Qed.
 
 (* ---- a rung completes exactly when its last slot receives a value (reported or failed = NaN) ----
